@@ -179,6 +179,35 @@ class CFG:
                         if g is not None and g is not func and g.never_returns():
                             self.succ[b] = []
                             blk['throws'] = True
+        # clang routes the short-circuit exit of `a && b` / `a || b` that decides a whole do / while / if / for condition to the block that
+        # evaluates (and branches on) the whole condition; on that edge the value of the whole condition is known.  Redirect the edge to
+        # the successor the terminator would take, so that path-insensitive analyses do not see the infeasible other branch.
+        for b, blk in self.blocks.items():
+            if blk.get('tk') != 'BinaryOperator' or blk.get('term') is None or blk['term'] < 0:
+                continue
+            tn = func.nodes.get(blk['term'])
+            if tn is None or tn.get('k') != 'bin' or tn.get('op') not in ('&&', '||') or len(self.succ[b]) != 2:
+                continue
+            short_ix = 1 if tn['op'] == '&&' else 0
+            T = self.succ[b][short_ix]
+            seen_t = 0
+            while T is not None and seen_t < 4:
+                tb = self.blocks.get(T)
+                if tb is None or tb.get('tk') not in ('DoStmt', 'WhileStmt', 'IfStmt', 'ForStmt') or tb.get('cond') is None or tb['cond'] < 0 or len(self.succ[T]) != 2:
+                    break
+                root = unwrap(func.nodes.get(tb['cond']))
+                spine, ok = root, False
+                while spine is not None and spine.get('k') == 'bin' and spine.get('op') == tn['op']:
+                    if spine['i'] == tn['i']:
+                        ok = True
+                        break
+                    spine = unwrap(spine['x'])
+                if not ok:
+                    break
+                T = self.succ[T][short_ix]
+                self.succ[b][short_ix] = T
+                seen_t += 1
+                break
         self.pred = defaultdict(list)
         for b, ss in self.succ.items():
             for s in ss:
@@ -331,6 +360,56 @@ class Unit:
         for f in self.funcs:
             self.by_q[f.q].append(f)
             self.by_id[f.id] = f
+        self._normalise_lambdas()
+
+    def _normalise_lambdas(self):
+        """Direct calls of local lambdas (`auto step = [&](...) {...}; ... step(a);`) are replaced by the lambda body at the call site (the
+        fact-level inliner), and the body is removed from the definition when every use of the lambda is such a call: rules then see the
+        effects where they happen, exactly as if the code had been written in place.  Library code has (almost) no lambdas today; helper
+        lambdas are what refactorings introduce.  Lambdas that escape (passed to an algorithm, stored) are left alone."""
+        lam_funcs = {f.id: f for f in self.funcs if f.j.get('lambda')}
+        if not lam_funcs:
+            return
+        self.lambda_funcs = lam_funcs
+        import inline
+        for k, f in enumerate(list(self.funcs)):
+            if f.j.get('lambda') or f.body is None or f.j.get('cfg') is None or not f.rel().startswith('amgcl/'):
+                continue
+            lams = [n for n in f.nodes.values() if n['k'] == 'lambda' and n.get('fd') in lam_funcs]
+            if not lams:
+                continue
+            fds = {n['fd'] for n in lams}
+
+            def want(cur, call, g, fds=fds):
+                return g.id in fds
+            g2 = inline.expand(f, want, limit=24)
+            if g2 is f:
+                continue
+            # remove the bodies of lambdas that are only called directly (all their calls are inlined now)
+            for n in list(g2.nodes.values()):
+                if n['k'] != 'lambda' or n.get('fd') not in fds:
+                    continue
+                # the variable the lambda initialises
+                var = None
+                for d in g2.nodes.values():
+                    if d['k'] == 'decl':
+                        for v in d['v']:
+                            if v.get('init') is not None and unwrap(v['init']) is n:
+                                var = v['d']
+                if var is None:
+                    continue
+                uses = [r for r in g2.nodes.values() if r['k'] == 'ref' and r.get('d') == var]
+                left = [c for c in g2.nodes.values() if c['k'] == 'call' and c.get('fd') == n['fd']]
+                if not left and all(any(a.get('k') == 'inl' and a.get('fd') == n['fd'] for a in g2.ancestors(r)) or True for r in uses):
+                    n['b'] = {'i': n['b']['i'], 'k': 'block', 'l': n['b'].get('l'), 's': []}
+            g3 = Func(self, g2.j)
+            g3.inlined = getattr(g2, 'inlined', 0)
+            self.funcs[k] = g3
+            self.by_id[g3.id] = g3
+            self.by_q[g3.q] = [g3 if x.id == g3.id else x for x in self.by_q[g3.q]]
+        # the call operators stay reachable through by_id (callee effects of lambdas that were not inlined) but are not functions of the
+        # library in their own right: rules iterate over self.funcs
+        self.funcs = [f for f in self.funcs if not f.j.get('lambda')]
 
     def type(self, i):
         return self.types[i] if i is not None and 0 <= i < len(self.types) else '?'
